@@ -56,6 +56,8 @@ def run(rec, cfg):
         if root is None:
             continue
         rec.arm("start:" + src)
+        if src in ("arm-text", "edge-text", "near-text") and D._small(root, 25):
+            D.inplace_pairs(rec, root, use, rng)
         if rng.random() < 0.5:
             D.inplace_chain(rec, root, use, rng, steps=rng.randint(2, 6), big=big)
         frontier = [root]
